@@ -53,6 +53,42 @@ type Seed struct {
 	Fix    func(b []byte) // optional: re-establish checksums after a field was replaced (both variants are run)
 	Rels   []Rel          // fields whose boundary is relative to the input length
 	Combos []ComboAxis    // fields that have to lie *together*: mutants with two or more axes changed at once
+	Heads  []int          // offsets at which a structure (signature, record, frame) of the seed starts; nil = {0} (cutoffMutants)
+}
+
+// cutoffMutants: "a valid container followed by the cut-off beginning of another one" — the input of a
+// scanning / record-walking loop whose error path for an element that the end of the input cuts short
+// differs from the one for a malformed element (gap closing round 3: a `continue` that does not advance).
+// For every head h and every k: seed ++ seed[h:h+k] (the first k bytes of the structure at h, then the
+// input ends), and (`two`, thorough tier) seed ++ seed[h:h+8] ++ seed[h:h+20]: two cut-off beginnings in a row.
+// Deterministic (no PRNG), few, never sub-sampled.
+func cutoffMutants(seed []byte, heads []int, ks []int, two bool) [][]byte {
+	if heads == nil {
+		heads = []int{0}
+	}
+	var out [][]byte
+	cat := func(parts ...[]byte) []byte {
+		var b []byte
+		for _, p := range parts {
+			b = append(b, p...)
+		}
+		return b
+	}
+	for _, h := range heads {
+		if h < 0 || h >= len(seed) {
+			continue
+		}
+		hd := seed[h:]
+		for _, k := range ks {
+			if k <= len(hd) {
+				out = append(out, cat(seed, hd[:k]))
+			}
+		}
+		if two && len(hd) >= 20 {
+			out = append(out, cat(seed, hd[:8], hd[:20]))
+		}
+	}
+	return out
 }
 
 // ComboAxis is one dimension of a combination mutant: one of Fields gets one of Values (or the axis is left as
@@ -146,6 +182,8 @@ type EP struct {
 	ModelMax int                                                     // inputs longer than this are not sent to the model (0 = 4096)
 	K        uint64                                                  // allocation slope   (0 = DefaultK)
 	KC       uint64                                                  // allocation constant (0 = DefaultKC)
+	Shapes   func(tier string) []Seed                                // optional: hand-built precise inputs, run as they are, outside the caps
+	Late     bool                                                    // generated after the entry points without this flag (keeps their PRNG stream as it was)
 	Quick    int                                                     // cap of generated cases, quick tier (0 = 500)
 	Thorough int                                                     // cap, thorough tier (0 = 12000)
 }
@@ -168,13 +206,20 @@ func Register(e *EP) {
 	eps[e.Name] = e
 }
 
+// epNames: the generation order — sorted by name, entry points marked Late after all the others (each group
+// sorted), so that an entry point added later does not shift the PRNG stream of the existing ones.
 func epNames() []string {
-	var ns []string
-	for n := range eps {
-		ns = append(ns, n)
+	var ns, late []string
+	for n, e := range eps {
+		if e.Late {
+			late = append(late, n)
+		} else {
+			ns = append(ns, n)
+		}
 	}
 	sort.Strings(ns)
-	return ns
+	sort.Strings(late)
+	return append(ns, late...)
 }
 
 // ---------------------------------------------------------------- property
@@ -344,6 +389,38 @@ func (prop) Gen(r *rand.Rand, tier string) []core.Case {
 			random = random[:max(room, 0)]
 		}
 		cs = append(cs, random...)
+		// gap closing round 3 — appended after the caps and without touching the PRNG, so that the streams
+		// above are exactly what they were: (1) the entry point's hand-built shapes, (2) the cut-off
+		// repetitions of the first distinct seed inputs (all of them in the thorough tier).
+		var cut []core.Case
+		if e.Shapes != nil {
+			for _, s := range e.Shapes(tier) {
+				add(&cut, "shape:"+s.Name, s.In, s.Args)
+			}
+		}
+		nCut, ks := 2, []int{8, 55}
+		if tier == "thorough" {
+			nCut, ks = 1<<30, []int{1, 4, 7, 8, 9, 12, 16, 24, 32, 47, 48, 55, 56, 64}
+		}
+		distinctIn := map[uint64]bool{}
+		for _, s := range seeds {
+			if len(s.In) < 8 || strings.HasPrefix(s.Name, "attack-") {
+				continue
+			}
+			// quick: each distinct input once (with the argument set of its first seed); thorough: every seed
+			if d := core.FNV(s.In); !distinctIn[d] {
+				if len(distinctIn) >= nCut {
+					continue
+				}
+				distinctIn[d] = true
+			} else if tier != "thorough" {
+				continue
+			}
+			for _, b := range cutoffMutants(s.In, s.Heads, ks, tier == "thorough") {
+				add(&cut, "cutoff:"+s.Name, b, s.Args)
+			}
+		}
+		cs = append(cs, cut...)
 		all = append(all, cs...)
 	}
 	return all
